@@ -5,9 +5,11 @@ import functools
 import itertools
 import math
 import operator
+import os
 import pathlib
 import pickle
 import random
+import threading
 from functools import lru_cache, partial, reduce
 from operator import or_
 
@@ -648,6 +650,38 @@ class DiskDict:
         if delete_dir and (self._directory is not None):
             self._path.rmdir()
 
+    def _fname(self, k):
+        if not isinstance(k, tuple):
+            # treat all as nested key
+            k = (k,)
+        return self._path.joinpath(*k)
+
+    def _load(self, k):
+        """Try to load the entry for ``k`` from disk into memory. Returns
+        ``True`` if a complete entry was read. A file that is missing *or
+        cannot be unpickled* (e.g. left truncated by a writer that was killed,
+        or is still being written by an old in-place writer) counts as not
+        being there, so that the caller simply recomputes and overwrites it.
+        """
+        fname = self._fname(k)
+        for _ in range(self.max_retries):
+            try:
+                with open(fname, "rb") as f:
+                    self._mem_cache[k] = pickle.load(f)
+                return True
+            except FileNotFoundError:
+                # (also covers a missing sub-directory)
+                return False
+            except (IsADirectoryError, NotADirectoryError):
+                return False
+            except Exception:
+                # file was not written completely (yet?),
+                # e.g. by another process
+                import time
+
+                time.sleep(self.retry_delay)
+        return False
+
     def __contains__(self, k):
         if k in self._mem_cache:
             return True
@@ -655,56 +689,43 @@ class DiskDict:
         if self._directory is None:
             return False
 
-        if not isinstance(k, tuple):
-            k = (k,)
-
-        return self._path.joinpath(*k).exists()
+        # n.b. checking only for file existence is not enough, the entry
+        # must also be readable, otherwise `self[k]` could never succeed
+        return self._load(k)
 
     def __setitem__(self, k, v):
         self._mem_cache[k] = v
         if self._directory is not None:
-            if not isinstance(k, tuple):
-                # treat all as nested key
-                k = (k,)
-            fname = self._path.joinpath(*k)
-            if len(k) > 1:
+            fname = self._fname(k)
+            if fname.parent != self._path:
                 # ensure subparent directories exist
                 fname.parent.mkdir(parents=True, exist_ok=True)
-            # write file!
-            with open(fname, "wb+") as f:
-                pickle.dump(v, f)
+            # write to a temporary file in the same directory, then atomically
+            # move it into place: a reader (or a later process, if we are
+            # killed half way) only ever sees no file, the complete old
+            # entry or the complete new entry, never a partial one
+            tmp = fname.with_name(
+                f"{fname.name}.{os.getpid()}-{threading.get_ident()}.tmp"
+            )
+            try:
+                with open(tmp, "wb") as f:
+                    pickle.dump(v, f)
+                os.replace(tmp, fname)
+            except BaseException:
+                try:
+                    os.unlink(tmp)
+                except OSError:
+                    pass
+                raise
 
     def __getitem__(self, k):
         try:
             return self._mem_cache[k]
-        except KeyError as e:
-            if self._directory is None:
-                # cache is in-memory only
-                raise e
-
-            if not isinstance(k, tuple):
-                # treat all as nested key
-                k = (k,)
-
-            fname = self._path.joinpath(*k)
-            if not fname.exists():
-                # file does not exist on disk
-                raise e
-
-            for _ in range(self.max_retries):
-                try:
-                    with open(fname, "rb") as f:
-                        self._mem_cache[k] = v = pickle.load(f)
-                        return v
-                except (EOFError, pickle.UnpicklingError) as e:
-                    # file was not written completely yet
-                    # e.g. by another process
-                    import time
-
-                    time.sleep(self.retry_delay)
-
-            # file exists but there is some other error after retrying
-            raise e
+        except KeyError:
+            if (self._directory is None) or (not self._load(k)):
+                # in-memory only, or no (readable) file on disk
+                raise
+            return self._mem_cache[k]
 
 
 def get_rng(seed=None):
